@@ -1,5 +1,5 @@
 BASELINE_OFF = "cd /repo && for m in . tests/fieldmask tests/unknown_fields; do (cd $m && GOFLAGS=-mod=mod GOPROXY=off GOSUMDB=off go test -json -vet=off -count=1 -timeout 25m ./...); done"
-HOOK_COMMITS = ["1fe0d6a", "11e80b9"]
+HOOK_COMMITS = ["1fe0d6a", "11e80b9", "6a2530e"]
 NOTES = ("Every check rebuilds its Coq cone (make) and its Go harness against /repo's working tree, runs the real code on generated "
          "inputs, and evaluates model + property oracles inside coqc. Properties not yet claimed are listed under not_applicable with "
          "reason 'not built yet' only while the framework is growing; see DESIGN.md section 8 (status).")
